@@ -276,6 +276,22 @@ def f(x: FLOAT[...], n: INT64[...]):
     return like_of(x, 3), like_f(n, 2.5)
 ''', ["x:F:3 n:I:3"])
 
+P("optional_input_skipped_by_keyword", '''
+@script()
+def f(x: FLOAT[...], hi: FLOAT):
+    a = op.Clip(x, max=hi)
+    b = op.Clip(x, max=1.0)
+    c = op.Clip(x, min=hi)
+    d = op.Clip(x, hi, max=4.0)
+    return a, b, c, d
+''', ["x:F:3 hi:F:"])
+
+P("optional_input_skipped_by_keyword_int", '''
+@script()
+def f(x: INT64[...]):
+    return op.Clip(x, max=2), op.Clip(x, min=-1, max=2)
+''', ["x:I:3"])
+
 P("same_named_subfunctions_in_two_domains", '''
 from onnxscript.values import Opset
 
